@@ -6,6 +6,7 @@
  * recorder rec_proc (goto-instrument --replace-calls; natively by a macro), which
  * logs each completed line it is handed and consumes it the way _ical_proc does.
  *
+ *  -DSPLIT2=<l>  (optional) three chunks: [0,k) [k,l) [l,N)
  *  -DN=<bytes>  -DSPLIT=<k>   bytes [0,k) arrive first, [k,N) second; compared
  *                            with all N bytes in one chunk.  Every byte symbolic. */
 #include "libc_models.h"
@@ -62,7 +63,10 @@ static struct ical_vevent_s *rec_proc(struct ical_parser_s *p)
 #endif
 }
 
-static char in1[N + 1], in2a[N + 1], in2b[N + 1];
+#if !defined SPLIT2
+# define SPLIT2 N
+#endif
+static char in1[N + 1], in2a[N + 1], in2b[N + 1], in2c[N + 1];
 static struct ical_parser_s P1;
 
 #if defined VERIF_CBMC
@@ -122,7 +126,8 @@ void harness(void)
 #endif
 		in1[i] = (char)in.b[i];
 		if (i < SPLIT) in2a[i] = (char)in.b[i];
-		else in2b[i - SPLIT] = (char)in.b[i];
+		else if (i < SPLIT2) in2b[i - SPLIT] = (char)in.b[i];
+		else in2c[i - SPLIT2] = (char)in.b[i];
 	}
 #if defined KFONLY_C10_1
 	ASSUME(in.b[SPLIT - 1] == '\\');
@@ -138,6 +143,11 @@ void harness(void)
 	 * has counted it as the newline of a fold */
 	ASSUME(!(in.b[SPLIT - 2] == '\\' && in.b[SPLIT - 1] == '\n'));
 # endif
+#endif
+#if defined KF_C10_1 && SPLIT2 < N
+	/* ... the same at the second chunk boundary */
+	ASSUME(in.b[SPLIT2 - 1] != '\\');
+	ASSUME(!(in.b[SPLIT2 - 2] == '\\' && in.b[SPLIT2 - 1] == '\n'));
 #endif
 #if defined KF_C10_2
 	/* known finding C10-2: a folded line split between the newline and its space/tab */
@@ -158,9 +168,15 @@ void harness(void)
 	cur = &L2;
 	_ical_push(&P1, in2a, SPLIT);
 	DRAIN(&P1, SPLIT);
-	_ical_push(&P1, in2b, N - SPLIT);
+	_ical_push(&P1, in2b, SPLIT2 - SPLIT);
+	DRAIN(&P1, SPLIT2 - SPLIT);
+#if SPLIT2 < N
+	_ical_push(&P1, in2c, N - SPLIT2);
+	DRAIN(&P1, N - SPLIT2);
+	DRAIN(&P1, N - SPLIT2);
+#else
 	DRAIN(&P1, N - SPLIT);
-	DRAIN(&P1, N - SPLIT);
+#endif
 	(void)_ical_pull(&P1);
 
 	CHECK(!L1.oob && !L2.oob, "a completed line fits the line stash");
